@@ -65,12 +65,13 @@ import (
 func main() { Main("C27", run, nil) }
 
 const (
-	maxInt64  = uint64(1<<63 - 1)
-	auth      = "c27-password"
-	bigGas    = int64(100000000)
-	noAsset   = 1 // label: asset_id absent
-	btmLabel  = 0
-	farFuture = 4102444800 // 2100-01-01
+	maxInt64    = uint64(1<<63 - 1)
+	auth        = "c27-password"
+	bigGas      = int64(100000000)
+	nominalCost = int64(3000)
+	noAsset     = 1 // label: asset_id absent
+	btmLabel    = 0
+	farFuture   = 4102444800 // 2100-01-01
 )
 
 // ---------------------------------------------------------------- the wallet
@@ -308,14 +309,14 @@ func (w *wallet) install(us []*uspec) {
 // ---------------------------------------------------------------- actions
 
 type aspec struct {
-	Kind    string `json:"kind"` // spend, utxo, veto, addr, prog, retire, vote
-	Acct    int    `json:"acct,omitempty"`    // account label; 0 = "", -1 = unknown id
-	Asset   int    `json:"asset"`             // asset label; 1 = absent
+	Kind    string `json:"kind"`           // spend, utxo, veto, addr, prog, retire, vote
+	Acct    int    `json:"acct,omitempty"` // account label; 0 = "", -1 = unknown id
+	Asset   int    `json:"asset"`          // asset label; 1 = absent
 	Amount  uint64 `json:"amount"`
 	UU      bool   `json:"uu,omitempty"`
-	Out     int    `json:"out,omitempty"`     // utxo label; 0 = absent; -1 = unknown hash
-	Vote    int    `json:"vote,omitempty"`    // vote label
-	Prog    int    `json:"prog,omitempty"`    // program label of the recipient; 0 = empty
+	Out     int    `json:"out,omitempty"`  // utxo label; 0 = absent; -1 = unknown hash
+	Vote    int    `json:"vote,omitempty"` // vote label
+	Prog    int    `json:"prog,omitempty"` // program label of the recipient; 0 = empty
 	BadAddr bool   `json:"bad_addr,omitempty"`
 	Arb     string `json:"arb,omitempty"` // retire: arbitrary data (hex)
 }
@@ -510,21 +511,22 @@ func zs(xs ...interface{}) []string {
 }
 
 type outcome struct {
-	tag       int
-	errs      []int
-	fee       uint64
-	reserved  []int
-	verdict   int
-	ins       [][]string
-	outs      [][]string
-	wits      [][]string
-	panicked  string
-	tpl       *txbuilder.Template
-	validErr  error
-	size      uint64
-	costs     []int64
-	buildErr  error
-	signErr   error
+	tag      int
+	errs     []int
+	fee      uint64
+	reserved []int
+	verdict  int
+	ins      [][]string
+	outs     [][]string
+	wits     [][]string
+	panicked string
+	tpl      *txbuilder.Template
+	validErr error
+	size     uint64
+	costs    []int64
+	vmOK     []bool
+	buildErr error
+	signErr  error
 }
 
 func (w *wallet) utxoLabel(us []*uspec, h bc.Hash) int {
@@ -664,7 +666,10 @@ func (w *wallet) execute(cs *cspec) (o *outcome) {
 	stage = "serialize"
 	data, err := tx.TxData.MarshalText()
 	if err != nil {
-		panic(err)
+		// txbuilder.FinalizeTx returns this error: the transaction cannot be submitted
+		o.validErr = err
+		o.verdict = 4
+		return o
 	}
 	tx.TxData.SerializedSize = uint64(len(data) / 2)
 	tx.Tx.SerializedSize = uint64(len(data) / 2)
@@ -672,13 +677,14 @@ func (w *wallet) execute(cs *cspec) (o *outcome) {
 	blk := &bc.Block{BlockHeader: &bc.BlockHeader{Version: 1, Height: cs.BHeight}}
 	stage = "vm"
 	for i := range tx.Inputs {
-		cost := bigGas
+		// the VM's gas use for this input, measured with ample gas.  When the VM rejects the
+		// witness there is no cost to measure: a nominal one is recorded, so that the model's
+		// verdict rests on the witness shape alone and the oracle still knows what gas a
+		// correct witness would have needed
+		cost := nominalCost
+		ok := false
 		func() {
-			defer func() {
-				if r := recover(); r != nil {
-					cost = bigGas
-				}
-			}()
+			defer func() { recover() }()
 			var ctx *vm.Context
 			switch e := tx.Tx.Entries[tx.Tx.InputIDs[i]].(type) {
 			case *bc.Spend:
@@ -690,9 +696,11 @@ func (w *wallet) execute(cs *cspec) (o *outcome) {
 			}
 			if left, err := vm.Verify(ctx, bigGas); err == nil {
 				cost = bigGas - left
+				ok = true
 			}
 		}()
 		o.costs = append(o.costs, cost)
+		o.vmOK = append(o.vmOK, ok)
 	}
 	stage = "validate"
 	_, verr := validation.ValidateTx(tx.Tx, blk, converter)
@@ -1070,7 +1078,10 @@ func (w *wallet) oracle(cs *cspec, o *outcome) []string {
 		}
 	}
 	needGas := int64(o.size)
-	for _, c := range o.costs {
+	for i, c := range o.costs {
+		if !o.vmOK[i] {
+			c = 10000
+		}
 		needGas += c
 	}
 	gas := new(big.Int).Div(feeTx, big.NewInt(consensus.VMGasRate))
@@ -1715,7 +1726,7 @@ func (w *wallet) runCase(cs *cspec, prev []*uspec) {
 		st.Sample(map[string]interface{}{"case": cs, "fee": o.fee, "inputs": len(o.ins), "outputs": len(o.outs), "size": o.size, "vm_costs": o.costs})
 	}
 	id := c.Cases.Add(w.caseCoq(cs, o), o.coq())
-	if id < 400 {
+	if id < 1000 {
 		st.CaseIndex[fmt.Sprint(id)] = cs
 	}
 }
@@ -1799,6 +1810,7 @@ func run(c *Ctx) error {
 		w.runCase(cs, prev)
 		prev = cs.Utxos
 	}
+	c.Stats.Distribution["model_evaluated"] = c.Cases.Len()
 	c.Stats.Rule = "nontrivial = Build succeeds with at least one funded input and one output (distinct request + UTXO set)"
 	header := "From Coq Require Import List ZArith NArith Bool.\nFrom C27 Require Import Model Run.\nImport ListNotations.\nOpen Scope N_scope.\n"
 	return c.Cases.Write(c.Out, header, "cres", "cres_eqb")
